@@ -2,7 +2,7 @@
 #[verifier::external_body] pub struct TypeVar { _p: u32 }
 #[verifier::external_body] pub struct Prim { _p: u64 }
 #[verifier::external_body] pub struct Constructor { _p: u64 }
-#[verifier::external_body] pub struct ClosureParam { _p: u64 }
+pub struct ClosureParam { pub name: String, pub ty: Ty, pub astptr: Option<MySyntaxNodePtr> }        // tast::ClosureParam
 #[verifier::external_body] #[derive(Clone, Copy)] pub struct MySyntaxNodePtr { _p: u64 }
 #[verifier::external_body] #[derive(Clone, Copy)] pub struct ExprId { _p: u32 }
 #[verifier::external_body] #[derive(Clone, Copy)] pub struct LocalId { _p: u32 }
@@ -189,4 +189,37 @@ pub open spec fn tuple_pat_ok(pats: Seq<PatId>, ty: Ty, r: Pat, rec: Set<Constra
     && rec.contains(Constraint::TypeEqual(pt, ty))
     // item i is the elaboration of sub-pattern i (the code checks it against component i of a scrutinee tuple type of that width; the equation above ties them in any case)
     && items@.len() == pats.len() && forall|i: int| 0 <= i < pats.len() ==> sub_elab(#[trigger] pats[i], items@[i])
+}
+
+// ---- closures (U-INFERCTRL infer_closure_expr) ----
+#[verifier::external_body] pub struct HirTypeExpr { _p: u64 }
+pub struct HirClosureParam { pub name: LocalId, pub ty: Option<HirTypeExpr>, pub astptr: MySyntaxNodePtr }      // hir::ClosureParam
+#[verifier::external_body] pub struct HirTable { _p: u64 }
+pub uninterp spec fn annot_ty(h: HirTypeExpr, t: Ty) -> bool;          // t is what Ty::from_hir makes of the written annotation h
+impl Ty {
+    #[verifier::external_body] pub fn from_hir(genv: &PackageTypeEnv, ty: &HirTypeExpr, tparams: &Vec<TastIdent>) -> (r: Ty) ensures annot_ty(*ty, r) { unimplemented!() }
+}
+#[verifier::external_body] pub fn validate_annotation(genv: &PackageTypeEnv, diagnostics: &mut Diagnostics, t: &Ty, tparams: &Vec<TastIdent>) { unimplemented!() }
+impl LocalTypeEnv {
+    #[verifier::external_body] pub fn begin_closure(&mut self) { unimplemented!() }
+    #[verifier::external_body] pub fn current_tparams_env(&self) -> (r: Vec<TastIdent>) { unimplemented!() }
+    #[verifier::external_body] pub fn end_closure(&mut self, diagnostics: &mut Diagnostics, hir_table: &HirTable) -> (r: Vec<(String, Ty)>) { unimplemented!() }
+}
+impl Typer { #[verifier::external_body] pub fn hir_table_ref(&self) -> (r: &HirTable) { unimplemented!() } }           // &self.hir_table
+// a closure's type: one parameter type per parameter, in order — the written annotation where there is one — and the body's type as the result
+pub open spec fn closure_rule_ok(params: Seq<HirClosureParam>, body: ExprId, r: Expr) -> bool {
+    r matches Expr::EClosure { params: ps, body: b, ty, captures: _ } && inferred(body, *b) && ps@.len() == params.len()
+    && (ty matches Ty::TFunc { params: pt, ret_ty } && pt@.len() == params.len() && *ret_ty == expr_ty(*b)
+        && forall|i: int| 0 <= i < params.len() ==> (#[trigger] pt@[i]) == ps@[i].ty && (params[i].ty matches Some(h) ==> annot_ty(h, pt@[i])))
+}
+// a closure checked against an expected function type with as many parameters: an unannotated parameter takes the expected type, an annotated one its
+// annotation (equated with the expected type); the body is CHECKED against the expected result.  Any other expected type: the closure is inferred.
+pub open spec fn check_closure_ok(params: Seq<HirClosureParam>, body: ExprId, expected: Ty, r: Expr, rec: Set<Constraint>) -> bool {
+    if expected matches Ty::TFunc { params: ep, ret_ty: er } && ep@.len() == params.len() {
+        r matches Expr::EClosure { params: ps, body: b, ty, captures: _ } && checked_as(body, *expected->TFunc_ret_ty, *b) && ps@.len() == params.len()
+        && (ty matches Ty::TFunc { params: pt, ret_ty } && pt@.len() == params.len() && *ret_ty == expr_ty(*b)
+            && forall|i: int| 0 <= i < params.len() ==> (#[trigger] pt@[i]) == ps@[i].ty && (match params[i].ty {
+                   Some(h) => annot_ty(h, pt@[i]) && rec.contains(Constraint::TypeEqual(pt@[i], expected->TFunc_params@[i])),
+                   None => pt@[i] == expected->TFunc_params@[i] }))
+    } else { closure_rule_ok(params, body, r) }
 }
